@@ -35,3 +35,17 @@ def facts(repo, f, H):
     body = H.strip_comments(H.func_body(repo, "banyand/internal/sidx/query.go", r"func \(s \*sidx\) handleStreamingBatch\("))
     f["mergePerScannerBatch"] = bool(re.search(r"resources\.heap\.pushCursors\(cursors\)", body)) and bool(
         re.search(r"return resources\.heap\.merge\(ctx, req\.MaxBatchSize, resultsCh, metrics\)", body))
+
+    # trace: cross-instance merge direction and batch size; stream row-path limit loop
+    f["defaultTraceBatchSize"] = H.const(repo, "banyand/trace/streaming_pipeline.go", "defaultTraceBatchSize")
+    body = H.strip_comments(H.func_body(repo, "banyand/trace/streaming_pipeline.go", r"func newSIDXStreamRunner\("))
+    f["traceMergeDirectionShape"] = bool(re.search(
+        r"asc := true\s+if req\.Order != nil && req\.Order\.Sort == modelv1\.Sort_SORT_DESC \{\s+asc = false\s+\}", body))
+    body = H.strip_comments(H.func_body(repo, "banyand/internal/sidx/query.go", r"func extractOrdering\(req QueryRequest\) bool \{"))
+    f["sidxOrderingShape"] = bool(re.search(
+        r"if req\.Order == nil \{\s+return true\s+\}\s+return req\.Order\.Sort != modelv1\.Sort_SORT_DESC", body))
+    body = H.strip_comments(H.func_body(repo, "pkg/query/logical/stream/stream_analyzer.go",
+                                        r"func \(l \*limit\) Execute\(ec context\.Context\) \(\[\]\*streamv1\.Element, error\) \{"))
+    f["streamLimitLoopShape"] = bool(re.search(r"for len\(allEntities\) < targetCount\+offset \{", body)) and bool(
+        re.search(r"needed := targetCount \+ offset - len\(allEntities\)", body)) and bool(
+        re.search(r"return allEntities\[offset:endIndex\], nil", body))
